@@ -17,6 +17,7 @@ CONSTANTS
   Both = TRUE
   PickMode = "any"
   JunkKinds <- J1
+  KeepHist = TRUE
   D = 0
 INIT Init
 NEXT Next
